@@ -326,11 +326,13 @@ def assigned_names(t, shadow=frozenset(), acc=None):
 
 class Interp:
     FUEL = 40
+    STEP_FUEL = 4000        # evaluation steps (a program of the space with <= 40 effects needs far fewer)
 
     def __init__(self):
         self.root = ("seq", [])
         self.stack = [self.root]
         self.events = 0
+        self.steps = 0
         self.unspecified = None
         self.access = []        # stack of (reads, writes) sets for enclosing Par children
 
@@ -446,6 +448,11 @@ class Interp:
 
     # ---- evaluation
     def eval(self, env, t):
+        # a loop that produces no effect at all, e.g. (while (not ((fn [] (return)))) (continue)), never spends
+        # effect fuel: evaluation steps are bounded too
+        self.steps = getattr(self, "steps", 0) + 1
+        if self.steps > self.STEP_FUEL:
+            self.events = self.FUEL + 1
         if self.events > self.FUEL:
             # once the fuel is spent nothing else is evaluated: a `finally` or handler that runs while the
             # Diverges signal unwinds must not replace it by an ordinary outcome
